@@ -586,6 +586,9 @@ class Sim:
 def run_case(case):
     if case.get('threaded'):
         return Sim(case).run_threaded(case['threaded'])
+    if case.get('pair'):
+        from fakes import c01_shared
+        return c01_shared.Pair(case).run()
     if case.get('shared'):
         from fakes import c01_shared
         return c01_shared.SharedSim(case).run()
